@@ -76,3 +76,23 @@ Theorem C03_dgram_socket_set_egress_returns :
                  length r = length ss /\ Forall sock_wf r.
 Proof. exact dgram_socket_set_egress_returns. Qed.
 Print Assumptions C03_dgram_socket_set_egress_returns.
+
+(* Mixed socket sets: the three hypotheses are closed under sums of component kinds (iterate for more
+   than two kinds), so a set mixing e.g. TCP sockets (C03_tcp_* in Props/C03tcp.v) and datagram sockets
+   (above) needs no further argument. *)
+Theorem C03_egress_loop_mixed_set_returns :
+  forall (E A B : Type) (dA : E -> A -> E * A * dres) (dB : E -> B -> E * B * dres)
+         (InvA : A -> Prop) (InvB : B -> Prop) (muA : A -> nat) (muB : B -> nat),
+  (forall e s e' s' r, InvA s -> dA e s = (e', s', r) -> InvA s') ->
+  (forall e s e' s', InvA s -> dA e s = (e', s', RSent) -> (muA s' < muA s)%nat) ->
+  (forall e s e' s' r, InvA s -> dA e s = (e', s', r) -> r <> RSent -> (muA s' <= muA s)%nat) ->
+  (forall e s e' s' r, InvB s -> dB e s = (e', s', r) -> InvB s') ->
+  (forall e s e' s', InvB s -> dB e s = (e', s', RSent) -> (muB s' < muB s)%nat) ->
+  (forall e s e' s' r, InvB s -> dB e s = (e', s', r) -> r <> RSent -> (muB s' <= muB s)%nat) ->
+  forall pre fuel e ss,
+  Forall (sum_inv A B InvA InvB) ss -> (total2 (A + B) (sum_mu A B muA muB) ss < fuel)%nat ->
+  exists e' r n, poll_loop2 E (A + B) (sum_dispatch E A B dA dB) pre fuel e ss = Some (e', r, n) /\
+                 (n + total2 (A + B) (sum_mu A B muA muB) r <= total2 (A + B) (sum_mu A B muA muB) ss)%nat /\
+                 length r = length ss /\ Forall (sum_inv A B InvA InvB) r.
+Proof. exact mixed_set_returns. Qed.
+Print Assumptions C03_egress_loop_mixed_set_returns.
